@@ -36,6 +36,8 @@ class DOpts:
     max_steps: int = 3000
     dlq_interval_s: float = 30.0
     stale_bias: bool = False        # prefer the oldest row when reordering (stale message hazards)
+    max_injected_delay_s: float = 300.0   # lost acks stop once this much lock-wait was injected (keeps runs
+                                          # away from the engine's own wait time-outs, which no property covers)
 
 
 @dataclass
@@ -60,6 +62,7 @@ class EngineD:
         self._early = 0
         self._last_dlq = world.clock.us
         self.lost_by_row: dict[int, int] = {}
+        self.injected_delay_s = 0.0
         self.between: Callable[["EngineD"], None] | None = None   # hook called before every step
         self.after_delivery: Callable[["EngineD", int, str], None] | None = None
         self.drop_next_ack = False
@@ -185,10 +188,12 @@ class EngineD:
             self.res.reorders += 1
         rid = row["id"]
         if o.lost_ack_p > 0 and self.lost_by_row.get(rid, 0) < o.max_lost_acks_per_msg \
-                and ch.flip("lost_ack", o.lost_ack_p):
+                and self.injected_delay_s < o.max_injected_delay_s and ch.flip("lost_ack", o.lost_ack_p):
             self.lost_by_row[rid] = self.lost_by_row.get(rid, 0) + 1
+            self.injected_delay_s += w.knobs.lock_duration_s
             self.drop_next_ack = True
         self.res.deliveries.append((rid, row["message_type"], row["attempts"]))
+        w.delivery = (row["message_type"], w.commit_count)
         try:
             w.processor.process_one()
         except SimCrash:
@@ -198,6 +203,7 @@ class EngineD:
             w.probe("handler_error")
         finally:
             self.drop_next_ack = False
+        w.delivery = None
         self.res.steps += 1
         if self.after_delivery is not None:
             self.after_delivery(self, rid, row["message_type"])
@@ -221,6 +227,7 @@ class EngineD:
     def restart_with_recovery(self, sweeps: int = 1, lapse_first: bool = True) -> None:
         """All memory dropped; locks lapse; fresh processor with recovery; (caller drains)."""
         w = self.w
+        w.delivery = None
         w.crash_restart()
         self.res.crashes += 1
         if lapse_first:
@@ -248,7 +255,7 @@ def final_state(w: World, wf_id: str) -> dict[str, Any]:
     by_id = {r["id"]: r for r in srows}
     stages: dict[str, Any] = {}
     dup: list[str] = []
-    for r in srows:
+    for r in sorted(srows, key=lambda x: x["id"]):   # ULIDs: creation order
         if r["parent_stage_id"]:
             par = by_id.get(r["parent_stage_id"])
             key = f"{par['ref_id'] if par else '?'}/{r['synthetic_stage_owner']}/{r['name']}"
@@ -260,7 +267,10 @@ def final_state(w: World, wf_id: str) -> dict[str, Any]:
                "id": r["id"], "synthetic": bool(r["parent_stage_id"])}
         if key in stages:
             dup.append(key)
-            key = key + "#" + r["id"]
+            n = 2
+            while f"{key}#{n}" in stages:
+                n += 1
+            key = f"{key}#{n}"
         stages[key] = ent
     return {
         "wf_status": wf[0]["status"] if wf else None,
